@@ -103,6 +103,13 @@ def gen_tags(R, p, ast, names, tdy, base_state):
             if rs and not projects._week53(names, rs[1]):
                 b = R.choice(["\u00a0", "\u2009", "\u3000", "\u0085"])
                 out.append((rs[0] + b if R.random() < 0.5 else b + rs[0], "unicode-blank-at-edge"))
+        elif r < 0.95 and any(x in names for x in ("JJJ", "00J")) and "YYYY" in names:
+            # day 366 of the year 9999 (not a leap year): date arithmetic leaves the range of dates altogether.
+            # Whether day 366 of a non-leap year "matches" is left open by the statement - but it must not crash.
+            st = dict(base_state)
+            st.update(year_y=9999, year_g=9999, doy=366)
+            t = ref.render(ast, st)
+            out.append((t, "doy-366-at-year-9999"))
         elif has_md:
             st = dict(base_state)
             st.update(year_y=R.choice([2021, 2023, 2030]), month=R.choice([2, 2, 4, 6, 9, 11]))
@@ -205,10 +212,17 @@ def observe(ctx, case, d, env, p, ast, tdy, cur, tags_all, tags_merged, scope, c
     ctx.evaluated((scope, min(len(m_all), 4), tuple(sorted(kinds - {"valid"})), rel, ties, ignore, backend),
                   sample={k: desc[k] for k in ("pattern", "config_version", "tags_all", "scope", "expected")})
     cls_crash = "impossible_date_tag_crashes" if ("impossible-date" in kinds and res.crash and "ValueError" in res.crash) \
+        else "out_of_range_date_tag_crashes" if ("doy-366-at-year-9999" in kinds and res.crash and "OverflowError" in res.crash) \
         else "other:show_fails_because_of_tags"
     if res.exit_code != 0 or res.crash:
         ctx.violation(cls_crash, f"show exits {res.exit_code}: {res.crash or res.errors()[-2:]}", case=case, observed=desc)
         return
+    if "doy-366-at-year-9999" in kinds:
+        ctx.count("doy_366_at_year_9999_cases")
+        u = harness.invoke(["update", "--dry", "--no-fetch", "--date", "2031-02-03"], cwd=d, env=env)
+        if u.crash:
+            ctx.violation("out_of_range_date_tag_crashes", f"update --dry: {u.crash[-200:]}", case=case, observed=desc)
+        return      # only "does not break" is asserted here (see gen_tags)
     got = res.stdout_value("Current Version: ")
     pep_line = res.stdout_value("PEP440         : ")
     if got is not None and vkey(got) is not None:
